@@ -173,6 +173,23 @@ Theorem C20_no_esc : forall cfg out, c_color cfg = false -> has_esc (shown_outpu
 Proof. exact shown_output_no_esc. Qed.
 Print Assumptions C20_no_esc.
 
+(* ---- QUIET verbosity (tests and tools only; `--quiet` on the command line is NO_STATUS_UPDATE, which is
+   covered by the theorems above): nothing but Info() lines -- not even a failed command's output. ---- *)
+Theorem C20_quiet : forall cfg cs,
+  c_verb cfg = VQuiet -> forallb plain cs = true ->
+  render cfg cs = concat (map info_out cs).
+Proof. exact quiet_silent. Qed.
+Print Assumptions C20_quiet.
+
+(* ---- smart terminal (a tty, NORMAL verbosity), console free: the same blocks, with overprinting status
+   lines "\r" line "ESC[K" (elided to the width) at every start and finish; each FAILED block / output
+   begins with the newline that ends the status line ([body] with owed = true). ---- *)
+Theorem C20_smart_blocks : forall cfg cs,
+  smart cfg = true -> format_ok cfg -> forallb plain cs = true ->
+  render cfg cs = concat (spieces cfg u0 cs).
+Proof. exact smart_blocks. Qed.
+Print Assumptions C20_smart_blocks.
+
 (* ---- non-vacuity -------------------------------------------------------------------------------- *)
 (* hypotheses of C20_blocks: default configuration on a pipe; three commands, one fails, one prints
    NUL bytes, one prints a colour sequence; the rendering is the expected transcript *)
@@ -238,4 +255,16 @@ Proof.
          [Finished ex_e1 0 [27;91;51;49;109;114;27;91;48;109;10]; Started ex_e3; Finished ex_e3 0 [];
           BuildFinished; Info [100;111;110;101]].
   split; [reflexivity|]. split; [discriminate|]. repeat split; reflexivity.
+Qed.
+
+(* hypotheses of C20_smart_blocks: an 80-column terminal; of C20_quiet: the same calls, QUIET *)
+Definition ex_smart_cfg : config := mkConfig true VNormal true 80%nat default_format None (fun _ _ => []).
+Definition ex_quiet_cfg : config := mkConfig false VQuiet false O default_format None (fun _ _ => []).
+Example C20_smart_nonvacuous :
+  smart ex_smart_cfg = true /\ format_ok ex_smart_cfg /\ forallb plain ex_calls = true /\
+  c_verb ex_quiet_cfg = VQuiet /\
+  render ex_quiet_cfg ex_calls = [110;105;110;106;97;58;32;100;111;110;101;10].      (* only "ninja: done" *)
+Proof.
+  split; [reflexivity|]. split; [apply format_ok_default; reflexivity|].
+  split; [reflexivity|]. split; [reflexivity|]. vm_compute. reflexivity.
 Qed.
